@@ -131,9 +131,44 @@ fn worker(targets: &[Target], args: &Args) {
 
     // progress marker: lets the driver resume behind an aborting case
     let progress_path = format!("{out}.progress");
+    let paranoid = args.flag("paranoid");
+    // per-case watchdog: a case normally takes microseconds; one that runs for more than
+    // `--case-timeout` seconds is recorded (with its index) and the worker exits.
+    let case_timeout = args.num("case-timeout", 60);
+    {
+        let abort_path = format!("{out}.abort");
+        std::thread::spawn(move || {
+            let mut last = u64::MAX;
+            let mut since = std::time::Instant::now();
+            loop {
+                std::thread::sleep(std::time::Duration::from_millis(500));
+                let cur = CURRENT_INDEX.load(Ordering::Relaxed);
+                if cur == u64::MAX - 1 {
+                    return; // worker is done
+                }
+                if cur != last {
+                    last = cur;
+                    since = std::time::Instant::now();
+                } else if cur != u64::MAX && since.elapsed().as_secs() >= case_timeout {
+                    let line = format!(
+                        "{{\"abort\":true,\"hang\":true,\"index\":{},\"sig\":\"hang/case_exceeded_time_limit\",\"detail\":\"case did not finish within {} s\"}}\n",
+                        cur, case_timeout
+                    );
+                    if let Ok(mut f) = std::fs::OpenOptions::new().create(true).append(true).open(&abort_path) {
+                        let _ = f.write_all(line.as_bytes());
+                        let _ = f.sync_all();
+                    }
+                    std::process::exit(3);
+                }
+            }
+        });
+    }
 
     for index in start..start + count {
         CURRENT_INDEX.store(index, Ordering::Relaxed);
+        if paranoid {
+            let _ = std::fs::write(&progress_path, format!("{index}"));
+        }
         let bytes = gen_case(seed, t.name, index, max_len);
         let ex = execute(t, &bytes, false, tier, param);
         executed += 1;
@@ -188,7 +223,7 @@ fn worker(targets: &[Target], args: &Args) {
             let _ = std::fs::write(&progress_path, format!("{index}"));
         }
     }
-    CURRENT_INDEX.store(u64::MAX, Ordering::Relaxed);
+    CURRENT_INDEX.store(u64::MAX - 1, Ordering::Relaxed);
 
     // samples: re-execute the first few non-trivial cases with tracing on
     let mut samples = Vec::new();
@@ -261,7 +296,7 @@ fn replay(targets: &[Target], args: &Args) {
     panics::set_verbose(!quiet);
     let bytes = case_bytes(args);
     CURRENT_INDEX.store(0, Ordering::Relaxed);
-    let ex = execute(t, &bytes, !quiet, tier, param);
+    let ex = crate::execute_opts(t, &bytes, !quiet, !quiet, tier, param);
     let (kind, sig, detail) = match &ex.outcome {
         Outcome::Pass => ("pass", String::new(), String::new()),
         Outcome::Discard(w) => ("discard", w.clone(), String::new()),
